@@ -322,18 +322,19 @@ func (v *VerifCIDGenerator) State() (active []VerifCIDEntry, retire []VerifCIDEn
 
 // ---------------------------------------------------------------- what the endpoint advertises
 
-// VerifAdvertisedCIDLimit returns the active_connection_id_limit the client puts on the wire:
-// for spec == "" the plain client's transport parameters (connection.go / u_connection.go without a
-// ClientHelloSpec), otherwise what newUClientConnection derives from the named built-in QUIC spec
-// (SuppressQUICTransportParameters, then PopulateFromUQUIC on the extension that uTLS serialises).
+// VerifAdvertisedCIDLimit returns the active_connection_id_limit the client puts on the wire (advertised) and the value
+// it hands to connIDManager.SetConnectionIDLimit (set; -1: SetConnectionIDLimit is not called):
+// for client == "" the plain client's transport parameters (connection.go / u_connection.go without a ClientHelloSpec),
+// otherwise what newUClientConnection derives from the named built-in QUIC spec (SuppressQUICTransportParameters, then
+// PopulateFromUQUIC on the extension that uTLS serialises, then SetConnectionIDLimit(params.ActiveConnectionIDLimit)).
 // ok == false: no such spec / the spec has no QUIC transport parameters extension.
-func VerifAdvertisedCIDLimit(client, version, fingerprint string) (limit uint64, ok bool) {
+func VerifAdvertisedCIDLimit(client, version, fingerprint string) (advertised uint64, set int64, ok bool) {
 	if client == "" {
-		return protocol.MaxActiveConnectionIDs, true
+		return protocol.MaxActiveConnectionIDs, -1, true
 	}
 	spec, err := QUICID2Spec(QUICID{Client: client, Version: version, Fingerprint: fingerprint})
 	if err != nil || spec.ClientHelloSpec == nil {
-		return 0, false
+		return 0, 0, false
 	}
 	for _, ext := range spec.ClientHelloSpec.Extensions {
 		if qtp, isQTP := ext.(*tls.QUICTransportParametersExtension); isQTP {
@@ -342,12 +343,12 @@ func VerifAdvertisedCIDLimit(client, version, fingerprint string) (limit uint64,
 			params.PopulateFromUQUIC(qtp.TransportParameters)
 			if params.ActiveConnectionIDLimit == 0 {
 				// parameter absent on the wire: the peer assumes the default
-				return protocol.DefaultActiveConnectionIDLimit, true
+				return protocol.DefaultActiveConnectionIDLimit, 0, true
 			}
-			return params.ActiveConnectionIDLimit, true
+			return params.ActiveConnectionIDLimit, int64(params.ActiveConnectionIDLimit), true
 		}
 	}
-	return 0, false
+	return 0, 0, false
 }
 
 // VerifQUICIDs lists the built-in spec identifiers the driver samples from.
